@@ -95,22 +95,34 @@ func (r *plRun) run(dur time.Duration) {
 		heads, err := r.node.Repo.ScanHeads(0)
 		must(err)
 		for _, id := range heads {
-			for !r.known[id] { // walk down: several own blocks may have appeared since the last look
+			// walk down: several own blocks may have appeared since the last look (a busy machine); they are recorded and
+			// handed to the cold-store validator parent first
+			var fresh []*block.Block
+			for !r.known[id] {
 				blk, err := r.node.Repo.GetBlock(id)
 				must(err)
 				if r.net.SignerOf(blk.Header()) != r.me {
 					break // delivered by the harness a moment ago, not yet marked (cannot happen: marked before delivery)
 				}
 				r.known[id] = true
+				fresh = append(fresh, blk)
+				id = blk.Header().ParentID()
+			}
+			for i := len(fresh) - 1; i >= 0; i-- {
+				blk := fresh[i]
 				ev := r.blockFacts(blk)
 				ev["e"], ev["at"], ev["lo"] = "Pack", r.ms(), lo
 				ev["best"] = r.ids.Name(r.node.Repo.BestBlockSummary().Header.ID().Bytes())
+				if i > 0 {
+					// the node packed fresh[i-1] on this block: the loop schedules on its best block, so this block WAS the
+					// node's best before now (readings are upper-bound stamps); the present best is not in the trace yet
+					ev["best"] = ev["b"]
+				}
 				r.evs = append(r.evs, ev)
 				r.own++
 				if err := r.net.GodLearn(blk); err != nil {
 					r.violate("packerloop:own-block-rejected", fmt.Sprintf("own block #%d rejected by a cold-store validator: %v", blk.Header().Number(), err))
 				}
-				id = blk.Header().ParentID()
 			}
 		}
 		// 2. the other validators: at their slot on the omniscient best (plus jitter) they mint - or sleep through it
